@@ -97,7 +97,7 @@ def scenario(backend, G, durations, kinds=None, lifespan_delay=0.0, S=1.0):
     time.sleep(0.2)                                   # every request has reached its application
     t_trigger = time.monotonic()
     sv.trigger.set()
-    time.sleep(0.05)
+    time.sleep(0.25)           # (the trigger is polled every 10 ms; a loaded machine needs more than a few of those)
     late = sv.try_connect()
     obs["late_connection"] = None
     if late is not None:
